@@ -44,6 +44,7 @@ let engines : (string * (z list -> (z list * z list) list -> verdict)) list = [
   ("alias", chk_alias);
   ("mapext", chk_mapext);
   ("callback", chk_callback);
+  ("nested2", chk_nested2);
 ]
 
 let () =
